@@ -177,27 +177,32 @@ Fixpoint field_loop (lines : list bytes) (v : hvars) : fres :=
            end
   end.
 
-(* the tuple returned by read_header *)
+(* the tuple returned by read_header.  sample_rate is not used by the reader
+   (only validated), so it stays optional; samptype None would behave like pcm in
+   copy_samples (only membership in {"alaw", "ulaw"} is tested there) *)
 Record header := {
-  h_coding : coding; h_size : Z; h_count : Z; h_rate : Z; h_chans : Z;
+  h_coding : coding; h_size : Z; h_count : Z; h_rate : option Z; h_chans : Z;
   h_order : option bytes; h_short : bool }.
 
 Inductive hres := HOk (h : header) (data : bytes) | HErr (e : err) | HUnmodelled.
 
-(* statements after the field loop *)
+(* statements after the field loop.  With the guard of the current source the
+   last two error branches are unreachable (the guard rejects a missing count
+   or channel count); were the guard relaxed, np.empty(None * n) would raise
+   TypeError in copy_samples, which is what they stand for *)
 Definition finish_header (v : hvars) (data : bytes) : hres :=
   let samptype := if hdr_infer_pcm (v_coding v) (v_size v) (v_count v) (v_rate v) (v_chans v) (v_order v)
                   then Some Pcm else v_coding v in
   if hdr_reject samptype (v_size v) (v_count v) (v_rate v) (v_chans v) (v_order v) then HErr EIO
+  else if negb (truthy_z (v_size v)) then HErr EType      (* sampsize = samptype & 3 : str & int *)
   else
-    match samptype, v_count v, v_rate v, v_chans v with
-    | Some c, Some n, Some r, Some ch =>
-        if truthy_z (v_size v)
-        then HOk {| h_coding := c; h_size := match v_size v with Some s => s | None => 0 end;
-                    h_count := n; h_rate := r; h_chans := ch; h_order := v_order v;
-                    h_short := v_short v |} data
-        else HErr EType                         (* sampsize = samptype & 3 : str & int *)
-    | _, _, _, _ => HErr EIO                    (* unreachable: hdr_reject is true *)
+    match v_count v, v_chans v with
+    | Some n, Some ch =>
+        HOk {| h_coding := match samptype with Some c => c | None => Pcm end;
+               h_size := match v_size v with Some s => s | None => 0 end;
+               h_count := n; h_rate := v_rate v; h_chans := ch; h_order := v_order v;
+               h_short := v_short v |} data
+    | _, _ => HErr EType
     end.
 
 Definition read_header (file : bytes) : hres :=
@@ -292,12 +297,7 @@ Record params := {
 Definition frame (P : params) : Z := p_chans P * p_size P.
 
 Definition convert_items (P : params) (items : list Z) : option (list Z) :=
-  if p_convert P
-  then match p_coding P with
-       | Alaw => table_take ALAW2PCM items
-       | _ => table_take ULAW2PCM items
-       end
-  else Some items.
+  if p_convert P then table_take (convert_table (p_coding P)) items else Some items.
 
 (* data[a : a + len vals] = vals on the pre-allocated array; None = a cell of
    np.empty that was never written *)
@@ -356,9 +356,13 @@ Inductive outcome :=
 | Error (e : err)
 | Unmodelled.
 
-Definition is_law (c : coding) : bool := match c with Pcm => false | _ => true end.
+(* samptype in {"alaw", "ulaw"} *)
+Definition is_law (c : coding) : bool := existsb (coding_eqb c) law_codings.
 
 Definition int16 : dtype := {| dk := KInt; dsize := 2 |}.
+(* the dtype chosen for the laws when none is requested (np.int16 in the source) *)
+Definition law_dtype : dtype :=
+  {| dk := if snd law_default_type then KInt else KUint; dsize := fst law_default_type / 8 |}.
 
 Definition params_of (h : header) (dt : option dtype) : option params :=
   match assoc_z (h_size h) in_types with
@@ -366,13 +370,13 @@ Definition params_of (h : header) (dt : option dtype) : option params :=
   | Some (bits, signed) =>
       let d := match dt with
                | Some d => d
-               | None => if is_law (h_coding h) then int16
+               | None => if is_law (h_coding h) then law_dtype
                          else {| dk := if signed then KInt else KUint; dsize := h_size h |}
                end in
       Some {| p_coding := h_coding h; p_size := h_size h; p_count := h_count h; p_chans := h_chans h;
               p_bits := bits; p_signed := signed;
-              p_be := match h_order h with Some o => bytes_eqb o [49; 48] | None => false end;
-              p_convert := (h_size h <? dsize d) && is_law (h_coding h);
+              p_be := match h_order h with Some o => bytes_eqb o big_endian_tag | None => false end;
+              p_convert := convert_rule (h_size h) (dsize d) (is_law (h_coding h));
               p_short := h_short h; p_dtype := d |}
   end.
 
